@@ -855,15 +855,22 @@ def set_value(source: NixSourceCode, npath: str, value: str) -> str:
                     )
                     return source.rebuild()
             # Create an innermost scope and capture existing trivia as the body.
+            # The line break / blank line that separates the body from what
+            # precedes it is layout, not body trivia: it stays in front of the
+            # new `let` (`with lib;\n{` must not become `with lib; let`).
+            before = list(target_expr.before)
+            lead = 0
+            while lead < len(before) and before[lead] in (linebreak, empty_line):
+                lead += 1
             new_layer: ScopeLayer = {
                 "scope": Scope(),
-                "body_before": list(target_expr.before),
+                "body_before": before[lead:],
                 "body_after": list(target_expr.after),
                 "attrpath_order": [],
                 "after_let_comment": None,
             }
             layers.append(new_layer)
-            target_expr.before = []
+            target_expr.before = before[:lead]
             target_expr.after = []
 
         if depth > len(layers):
